@@ -2444,3 +2444,7 @@ mod tests {
         assert!((source.clock_wander - 1e-8).abs() < 1e-12);
     }
 }
+
+#[cfg(all(test, pendulum_project_ntpd_rs_verif))]
+#[path = "/verif/harness/ntp_proto/kalman_source.rs"]
+pub(crate) mod verif_hook;
